@@ -256,3 +256,7 @@ mod tests {
         Ok(())
     }
 }
+
+#[cfg(kani)]
+#[path = "/verif/harness/util/alignment_builder.rs"]
+mod verif_kani;
